@@ -632,11 +632,43 @@ Fixpoint j5 (prog : list stmt) (tr : trace) : bool :=
   | _ :: r => j5 prog r
   end.
 
+(* J6 the configuration in force: a view statement that a LATER commit overrides (same request interface, context, name,
+   predicates and variants -- the same discriminator) is no longer part of the configuration, so its callable never runs;
+   whatever permission the overriding statement declares protects the slot from then on *)
+Definition slot_key_eqb (a b : vopts) : bool :=
+  N.eqb (o_req a) (o_req b) && N.eqb (o_ctx a) (o_ctx b) && text_eqb (o_name a) (o_name b)
+  && Bool.eqb (o_exc_only a) (o_exc_only b) && Bool.eqb (o_isexc a) (o_isexc b)
+  && match make pred_names (o_kw a), make pred_names (o_kw b) with
+     | Some x, Some y => text_eqb (m_phash x) (m_phash y)
+     | _, _ => false
+     end.
+Definition norm_opts (s : stmt) : option vopts :=
+  match directive (mkRS false None) s with Some (AView o _) => Some o | _ => None end.
+Definition overrides (s' s : stmt) : bool :=
+  match norm_opts s', norm_opts s with Some a, Some b => slot_key_eqb a b | _, _ => false end.
+Fixpoint overridden_tags (bs : list (list stmt)) : list N :=
+  match bs with
+  | [] => []
+  | b :: later =>
+      flat_map (fun s => match stmt_opts s with
+                         | Some o => if existsb (fun s' => overrides s' s) (concat later) then [o_tag o] else []
+                         | None => [] end) b
+      ++ overridden_tags later
+  end.
+Fixpoint j6 (ov : list N) (tr : trace) : bool :=
+  match tr with
+  | [] => true
+  | Body t _ :: r | Deco t _ :: r => negb (memN t ov) && j6 ov r
+  | _ :: r => j6 ov r
+  end.
+
 (* bit mask of the failed clauses: 1 mediation, 2 refusal, 4 refusal inside exception rendering,
-   8 granted check not on behalf of the next view, 16 blocked without refusal, 32 stray check *)
-Definition judge (prog : list stmt) (tr : trace) (fin : final) : N :=
+   8 granted check not on behalf of the next view, 16 blocked without refusal, 32 stray check,
+   128 the callable of an overridden statement ran.  ov = overridden_tags of the commits *)
+Definition judge (prog : list stmt) (ov : list N) (tr : trace) (fin : final) : N :=
   ((if j1 prog [] tr then 0 else 1) + j2 fin false false tr + (if j3 prog fin tr then 0 else 8)
-   + (if j4 prog fin None false tr then 0 else 16) + (if j5 prog tr then 0 else 32))%N.
+   + (if j4 prog fin None false tr then 0 else 16) + (if j5 prog tr then 0 else 32)
+   + (if j6 ov tr then 0 else 128))%N.
 
 (* observation level: events name the statement (tag of the registration div 2) *)
 Definition stag (rt : N) : N := if N.leb (2 * builtin_tag) rt then builtin_tag else N.div rt 2.
@@ -783,7 +815,7 @@ Definition run_C05 (v : val) : val :=
                                  let '(tr, fin) := run_request s gs q in
                                  let tr' := proj_trace tr in
                                  let fin' := proj_final fin in
-                                 VL [VL (map put_event tr'); put_final fin'; vN (judge prog tr' fin');
+                                 VL [VL (map put_event tr'); put_final fin'; vN (judge prog (overridden_tags bs) tr' fin');
                                      vbool (variant_okb prog tr)]
                              | OpRender sec q =>            (* outside the property: correspondence only *)
                                  let '(tr, o) := run_render s gs sec q in
@@ -796,6 +828,6 @@ Definition run_C05 (v : val) : val :=
                                                             olet fin := get_final fin in Some (tr, fin)
                                           | _ => None end) obs in
         let prog := concat bs in
-        Some (VL (map (fun tf => vN (judge prog (fst tf) (snd tf))) obs))
+        Some (VL (map (fun tf => vN (judge prog (overridden_tags bs) (fst tf) (snd tf))) obs))
     | _ => None
     end).
